@@ -36,6 +36,20 @@ impl FileSource {
     }
 }
 
+impl FileSource {
+    /// Check that `end` is inside the file.
+    /// The file may have been truncated or the offset may come from corrupted data.
+    fn check_in_file(&self, end: u64) -> std::io::Result<()> {
+        if end > self.len {
+            return Err(io::Error::new(
+                io::ErrorKind::UnexpectedEof,
+                format!("Out of file. {end} > {}", self.len),
+            ));
+        }
+        Ok(())
+    }
+}
+
 impl Deref for FileSource {
     type Target = Mutex<io::BufReader<File>>;
     fn deref(&self) -> &Self::Target {
@@ -80,6 +94,7 @@ impl Source for FileSource {
     }
 
     fn get_slice(&self, region: ARegion, block_check: BlockCheck) -> Result<Cow<[u8]>> {
+        self.check_in_file(region.end().into_u64() + block_check.size() as u64)?;
         let mut buf = vec![0; region.size().into_usize() + block_check.size()];
         self.read_exact(region.begin(), &mut buf)?;
         if let BlockCheck::Crc32 = block_check {
@@ -104,6 +119,7 @@ impl Source for FileSource {
 
         // We know from previous test that region.size() is addressable.
         let full_size = ASize::new(region.size().into_u64() as usize + block_check.size());
+        self.check_in_file(region.begin().into_u64() + full_size.into_u64())?;
         if full_size.into_u64() < 4 * 1024 {
             let mut f = self.lock().unwrap();
             let mut buf = Vec::with_capacity(full_size.into_usize());
